@@ -45,6 +45,10 @@ def plan(tier, seed):
             "exhaustive": False}
 
 
+def base_t(r):
+    return (r.type or "").split(" ")[0]
+
+
 # ----------------------------------------------------------------------------- layout enumeration
 def chains(maxlen):
     out = [()]
@@ -91,7 +95,15 @@ def layout_form(prefix, tsuf, rsuf, style, target_first, ref_kind, with_cells=Tr
         rq = Row("q", "calculate", "refq", {"calculation": f"{R} + indexed-repeat({R}, /data/x, 1) + ${{last-saved#{tname}}}",
                                             "relevant": f"instance('{lst}')/root/item[name = {R}]/label != '' and pulldata('f', 'a', 'b', {R})"})
     elif ref_kind == "group":
-        rq = Row("group", "begin group", "refq", {"label": f"G {R}", "relevant": f"{R} > 0"}, [Row("q", "text", "inner", {"label": f"in {R}"})])
+        rq = Row("group", "begin group", "refq", {"label": f"G {R}", "relevant": f"{R} > 0"}, [
+            Row("q", "text", "inner", {"label": f"in {R}"}),
+            # defaults of date-like types: a '-' there may be part of a literal date/coordinate, but with a reference it is an expression
+            Row("q", "date", "dflt_d", {"label": "d", "default": f"{R} - 1"}),
+            Row("q", "geopoint", "dflt_g", {"label": "g", "default": f"if({R} - 1 > 0, {R}, '')"}),
+            Row("q", "dateTime", "dflt_dt", {"label": "dt", "default": f"{R}-{R}"}),
+            # a bare last-saved reference (the whole cell), the shortest possible one when the name has one character
+            Row("q", "text", "dflt_ls", {"label": "ls", "default": "${last-saved#%s}" % tname}),
+        ])
     elif ref_kind == "selrep":
         rq = Row("q", f"select_one {R}", "refq", {"label": "from repeat", "choice_filter": f"{R} != 'zz'"})
     elif ref_kind == "selrep-nofilter":
@@ -305,6 +317,14 @@ def check_form(ctx, form, klass, sig):
                 ctx.viol("token-survives:attribute", f"'${{' survives in @{xf.local(k)}={v!r} on <{xf.local(el.tag)}>", common.witness(form, klass=klass))
         if el.text and "${" in el.text or (el.tail and "${" in el.tail):
             ctx.viol("token-survives:text", f"'${{' survives in text of/after <{xf.local(el.tag)}>", common.witness(form, klass=klass))
+    # (4b) whatever refers to the last-saved instance needs that instance declared, exactly once, with the conventional URI
+    uses_ls = any("instance('__last-saved')" in v for el in p.root.iter() if isinstance(el.tag, str) for v in el.attrib.values())
+    decl_ls = [i for i in p.secondary if i.get("id") == "__last-saved"]
+    if uses_ls:
+        ctx.ctr("last_saved_forms")
+        if len(decl_ls) != 1 or decl_ls[0].get("src") != "jr://instance/last-saved":
+            ctx.viol("last-saved:instance-not-declared", f"paths into instance('__last-saved') are emitted but the instance is declared {len(decl_ls)} times "
+                     f"(src {[i.get('src') for i in decl_ls]})", common.witness(form, klass=klass))
     rm = refmodel.RM(form)
     J = Judge(ctx, form, rm, p, klass)
     binds = {b.get("nodeset"): p.attr_dict(b) for b in p.binds()}
@@ -363,9 +383,13 @@ def check_form(ctx, form, klass, sig):
         # default (dynamic) -> setvalue value
         v = r.cells.get("default")
         if v and "${" in v:
+            n_sv = 0
             for sv in setvalues.get(e.path, []):
                 if sv.get("event", "").startswith("odk-instance-first-load") and sv.get("value") is not None:
+                    n_sv += 1
                     J.judge("default", e, v, sv.get("value"))
+            if not n_sv:
+                ctx.viol("default:reference-never-compiled", f"default {v!r} of {e.path} ({base_t(r)}) contains a reference but no first-load setvalue carries it", J.wit(cell="default"))
         # instance:: / body:: attributes
         for h, v in r.cells.items():
             if h.startswith("instance::") and "${" in v:
